@@ -66,6 +66,8 @@ func wrongTypeVal(r *core.Rand, c model.Col) proto.Val {
 	return proto.Str("true")
 }
 
+var hugeOversize int64 // (diagnostic only)
+
 // genFailing builds a statement that must fail on db, for a chosen cause.
 func genFailing(r *core.Rand, h *gen.Hist, cause string) *failStmt {
 	db := h.DB
@@ -217,6 +219,13 @@ func genFailing(r *core.Rand, h *gen.Hist, cause string) *failStmt {
 			over := 1
 			if r.Bool() {
 				over = r.Range(2, 60)
+			}
+			if r.Chance(1, 5) {
+				// far over the limit: row images of 2^16 or 2^17 bytes and a
+				// little more (sizes that look small again when they are kept
+				// in 16 bits)
+				over = (1<<16)*r.Range(1, 2) - model.MaxRowSize + r.Intn(300)
+				hugeOversize++
 			}
 			row[vi] = proto.Str(longStr(r, model.MaxRowSize-base+over))
 			return row
